@@ -360,6 +360,19 @@ func extras() []*scenario {
 				bld("C", corr(0, 7, 2001)), do("buildplog", "C"), do("wlog", "C"), do("wlog", "C"))
 		}
 	}
+	for t := 0; t <= 2; t++ {
+		for _, b := range backends {
+			// an event whose PutPlog was REFUSED (occupied PLog offset) or FAILED (injected storage error) is not in
+			// the log; its WLog offset and the record it creates are occupied: the same object handed to
+			// GetEventReapplier must be refused, the entries must stay (the probe runs after the PutPlog)
+			base := []*op{bld("A", event(5, 5, 1001, []recSpec{cr(204799, 501), {Kind: "Settings", Stamp: 502}}, nil)),
+				bld("E", event(5, 5, 1002, []recSpec{cr(204799, 601), {Kind: "Settings", Stamp: 602}}, nil)),
+				bld("F", event(6, 5, 1003, []recSpec{cr(204799, 701), {Kind: "Settings", Stamp: 702}}, nil)),
+				do("plog", "A"), do("apply", "A"), do("wlog", "A")}
+			mk("unstored/refused-plog", b, t, append(append([]*op{}, base...), do("plog", "E"))...)
+			mk("unstored/failed-plog", b, t, append(append([]*op{}, base...), &op{Op: "plog", Name: "F", Fault: true})...)
+		}
+	}
 	// a trust level the switch has no arm for
 	mk("unknown-trust-level", "mem", 3, bld("A", event(3, 3, 1001, one(200001, 501), nil)), do("plog", "A"))
 	return out
